@@ -189,6 +189,41 @@ func runC03(r *simkit.Run) {
 			}
 		}
 	}
+	// a second round whose identity set overlaps the first: the identities decrypted above plus
+	// a fresh one that sorts behind them (core / service flavours; Gnosis slots never overlap
+	// after a successful round)
+	if w.fl != flGnosis && !preRound && m >= 2 && c.Chance(300, "second-round-overlapping") {
+		fresh := append(append([]byte{}, ids[len(ids)-1]...), 0x01)
+		if w.fl == flService {
+			fresh = bytes.Repeat([]byte{0xff}, 32)
+			fresh[31] = byte(c.Intn(200, "fresh-id"))
+		}
+		ids2 := append(append([][]byte{}, ids...), fresh)
+		w.net.Cfg.DropPermille = 0
+		for _, i := range perm[:m] {
+			w.triggerNode(w.nodes[i], 11, ids2)
+		}
+		if !w.run(40000) {
+			r.Fail("no-quiescence", "steps", "the second round did not become quiescent")
+		}
+		if r.Failed() {
+			r.Fail("", "", "")
+		}
+		for _, nd := range w.nodes {
+			if received[nd.name] == 0 {
+				continue
+			}
+			keys := nd.storedKeys()
+			got, ok := keys[string(fresh)]
+			if !ok {
+				r.Fail("key-missing", "second-round", "node %s has no decryption key for the fresh identity of the second round (the other %d identities of that round had been decrypted before)", nd.name, len(ids))
+			}
+			if !bytes.Equal(got, w.refKey(fresh)) {
+				r.Fail("wrong-key", "second-round", "node %s stores a wrong key for the fresh identity of the second round", nd.name)
+			}
+		}
+		r.Probe("second-round-overlapping")
+	}
 	nkeys := 0
 	for _, p := range w.net.Log {
 		if p.Topic == "decryptionKeys" && !p.Injected {
